@@ -204,6 +204,8 @@ var c18Stmts = []string{
 	`if (a == 2) { a = 5 }`,
 	`if (a == 1) { a = 7 } else { a = 8 }`,
 	`for (v) in xs { b = b + v }`,
+	`for (v) in range(1, 2) { b = b + v }`,
+	`for (k) in st.GetKids() { c = c + k.Name }`,
 	`let f = fn(x) { return x + 1 }`,
 	`b = f(a)`,
 	`h() { %>text<% }`,
@@ -231,7 +233,7 @@ func init() {
 			return s
 		},
 		Run:  c18Run,
-		Rule: "(gap) 28 programs covering every construct as token lists: every single gap between adjacent tokens of a code tag replaced by each of {tab, newline, CRLF, two spaces, ' # c\\n' line comment, two consecutive comment lines, blank lines mixed with comment lines, and the empty string where gluing cannot change the tokens ('-' and '.' adjacent to letters/digits are never glued)}; all pairs of gaps; a comment tag / line-comment tag spliced in at every statement boundary inside blocks. (split) every sequence of <=3 (4 thorough) statements from 14 (let, assignment, if, if/else, for, fn literal, call, helper with block, and <%= if/for/helper { %> output-tag blocks closed by a later tag) x every way of cutting the sequence into <% %> tags (including a statement directly after the closing brace of if/for/fn/helper block in the same tag) x a comment tag or a # line comment inserted at each statement boundary. Oracle: output identical to the canonical layout's (one statement per tag, single spaces); errors identical after replacing 'line N:'. Non-trivial: all re-layouts.",
+		Rule: "(gap) 28 programs covering every construct as token lists: every single gap between adjacent tokens of a code tag replaced by each of {tab, newline, CRLF, two spaces, ' # c\\n' line comment, two consecutive comment lines, blank lines mixed with comment lines, and the empty string where gluing cannot change the tokens ('-' and '.' adjacent to letters/digits are never glued)}; all pairs of gaps; a comment tag / line-comment tag spliced in at every statement boundary inside blocks. (split) every sequence of <=3 (4 thorough) statements from 16 (let, assignment, if, if/else, for over a variable / a helper call / a method call, fn literal, call, helper with block, and <%= if/for/helper { %> output-tag blocks closed by a later tag) x every way of cutting the sequence into <% %> tags (including a statement directly after the closing brace of if/for/fn/helper block in the same tag) x a comment tag or a # line comment inserted at each statement boundary. Oracle: output identical to the canonical layout's (one statement per tag, single spaces); errors identical after replacing 'line N:'. Non-trivial: all re-layouts.",
 		Bound: func(th bool) string {
 			if th {
 				return "gap deviations <=2; statement sequences <=4"
